@@ -222,9 +222,25 @@ def nested_recursion_family():
     return out
 
 
+def later_call_family():
+    """Three macros: the call that closes the cycle A -> B -> A is not the first call of A's body (a harmless call of C comes
+    first), in every order of the definitions and with the harmless call before / after the closing one."""
+    import itertools
+    M, CA, CB, CC = ("M", ()), ("CA", ()), ("CB", ()), ("CC", ())
+    defs = {"A1": ("MA", (CC, CB)), "A2": ("MA", (CB, CC)), "A3": ("MA", (M, CC, M, CB)), "B": ("MB", (CA,)), "B2": ("MB", (CC, CA)),
+            "C": ("MC", (M,))}
+    out = []
+    for a in ("A1", "A2", "A3"):
+        for b in ("B", "B2"):
+            for order in itertools.permutations((a, b, "C")):
+                out.append(tuple(defs[k] for k in order) + (M, CA))
+    return out
+
+
 def run(ctx):
     n = 4 if ctx.quick else 5
-    forests = [f for f in pgen.programs(KINDS, n, depth=2) if valid(f)] + redefinition_family(ctx) + nested_recursion_family()
+    forests = ([f for f in pgen.programs(KINDS, n, depth=2) if valid(f)] + redefinition_family(ctx) + nested_recursion_family()
+               + later_call_family())
     ctx.prove_deterministic(lambda f: check_program(f)[0], [forests[0], forests[len(forests) // 2]], k=2)
     results = ctx.pmap(check_program, forests)
     execs = nontrivial = edits = 0
@@ -269,7 +285,7 @@ def replay(data):
 def _forest_from_lines(lines):
     rev = {v.split("{")[0]: k for k, v in pgen.TEMPLATES.items()}
     def kind_of(stripped):
-        for k in KINDS:
+        for k in KINDS + ["Al", "Wa", "MC", "CC"]:
             t = pgen.TEMPLATES[k]
             head = t.split("{")[0]
             if stripped.startswith(head) and (k not in ("M", "K") or True):
